@@ -12,6 +12,9 @@ inductive GoErr where
   | nil
   /-- an error returned by code outside the translated functions -/
   | ext (tag : String)
+  /-- an error returned by code outside the translated functions, identified by a number (the error returned by the
+  n-th call of a function parameter) -/
+  | extN (n : Nat)
   /-- a package-level error variable (`io.EOF`, `ErrClientClosed`, …) -/
   | global (name : String)
   /-- `errors.New(msg)` / `fmt.Errorf(msg, …)` without `%w` -/
@@ -43,6 +46,8 @@ def GoErr.isNil (e : GoErr) : Bool := e == .nil
 @[simp] theorem GoErr.wrap_beq_nil (s : String) (e : GoErr) : (GoErr.wrap s e == GoErr.nil) = false := by
   rw [beq_eq_false_iff_ne]; intro h; cases h
 @[simp] theorem GoErr.ext_beq_nil (s : String) : (GoErr.ext s == GoErr.nil) = false := by
+  rw [beq_eq_false_iff_ne]; intro h; cases h
+@[simp] theorem GoErr.extN_beq_nil (n : Nat) : (GoErr.extN n == GoErr.nil) = false := by
   rw [beq_eq_false_iff_ne]; intro h; cases h
 @[simp] theorem GoErr.global_beq_nil (s : String) : (GoErr.global s == GoErr.nil) = false := by
   rw [beq_eq_false_iff_ne]; intro h; cases h
